@@ -92,6 +92,7 @@ func main() {
 	eng.timeoutMs = *timeout
 	eng.seed = seed
 	eng.workers = *workers
+	eng.pathSem = make(chan struct{}, *workers)
 	eng.parallelHarness = *parH
 	if eng.parallelHarness < 1 {
 		eng.parallelHarness = 1
